@@ -160,6 +160,12 @@ const c16OpTimeout = 5 * time.Second
 const c16WallLimit = 120 * time.Second
 
 // procCPU returns the user+system CPU time consumed so far by a process (Linux /proc; 100 ticks per second).
+// c16MaxOpCPU: evidence of the margin below c16OpTimeout on this machine (reported in the notes).
+var (
+	c16MaxOpMu  sync.Mutex
+	c16MaxOpCPU time.Duration
+)
+
 func procCPU(pid int) time.Duration {
 	b, err := os.ReadFile(fmt.Sprintf("/proc/%d/stat", pid))
 	if err != nil {
@@ -243,7 +249,14 @@ func c16RunOpsStack(proc **c16Proc, cs *c16Case, ops []c16Op, attribute, smallSt
 				if id != cs.ID {
 					continue
 				}
-				cpu0, wall0 = procCPU(p.cmd.Process.Pid), time.Now()
+				if now := procCPU(p.cmd.Process.Pid); true {
+					c16MaxOpMu.Lock()
+					if d := now - cpu0; d > c16MaxOpCPU {
+						c16MaxOpCPU = d // the most CPU any RETURNING operation (or batch of operations between two result lines) used
+					}
+					c16MaxOpMu.Unlock()
+					cpu0, wall0 = now, time.Now()
+				}
 				switch {
 				case idx == -2:
 				case idx == -1:
@@ -1451,6 +1464,7 @@ func runC16(c *vh.Ctx) {
 		}
 	}
 	c.Res.Notes = append(c.Res.Notes, fmt.Sprintf("worker crashes attributed: %d", crashes))
+	c.Res.Notes = append(c.Res.Notes, fmt.Sprintf("most CPU between two result lines of a worker (operations that returned): %v; an operation is declared hung after %v of CPU", c16MaxOpCPU, c16OpTimeout))
 	c.Sample(map[string]any{"schema": "entity A in [A]; entity B; action view appliesTo {principal: [A,B], resource: [A,B]};", "op": `policy strict: permit(principal is A, action, resource) when { principal in B::"g" };`})
 	c.Sample(map[string]any{"schema": "any schema with an action that applies", "op": `policy (JSON): when {"==":{"left":{"Value":[1,2]},"right":{"Value":[1,2]}}}`})
 	finishSchemaCorrespondence(c, b)
